@@ -248,7 +248,9 @@ class Gene:
         elif op[:3] == "ins":
             return f"ins{rev_comp(op[3:])}"
         elif op[:3] == "del":
-            assert "ins" not in op, "del+ins not yet supported"
+            if "ins" in op[3:]:
+                pd, pi = op[3:].split("ins")
+                return f"del{rev_comp(pd)}ins{rev_comp(pi)}"
             return f"del{rev_comp(op[3:])}"
         return op
 
